@@ -2347,8 +2347,20 @@ impl TxParticipant {
             "Participant processing prepare request"
         );
 
+        // Also lock the storage keys the operations write (e.g. embedding "x" is
+        // stored under "emb:x"). Otherwise a transaction addressing the same stored
+        // entry through a different logical key is not excluded, and aborting one
+        // of them restores its prepare-time snapshot over the other's committed write.
+        let mut all_lock_keys = lock_keys.clone();
+        for op in &request.operations {
+            let storage_key = op.storage_key();
+            if !all_lock_keys.contains(&storage_key) {
+                all_lock_keys.push(storage_key);
+            }
+        }
+
         // Try to acquire locks
-        let lock_handle = match self.locks.try_lock(request.tx_id, &lock_keys) {
+        let lock_handle = match self.locks.try_lock(request.tx_id, &all_lock_keys) {
             Ok(handle) => handle,
             Err(conflicting_tx) => {
                 tracing::warn!(
